@@ -210,6 +210,8 @@ val nat_of_ascii : char -> nat
 
 val nth_error : 'a1 list -> nat -> 'a1 option
 
+val rev0 : 'a1 list -> 'a1 list
+
 val map : ('a1 -> 'a2) -> 'a1 list -> 'a2 list
 
 val flat_map : ('a1 -> 'a2 list) -> 'a1 list -> 'a2 list
@@ -496,6 +498,16 @@ val gen_CALL : char list
 
 val gen_APPLY : char list
 
+val gen_min_literal_length : n
+
+val gen_max_literal_length : n
+
+val gen_len_ok : n -> bool
+
+val gen_REQUIRE : char list
+
+val gen_REGEXP : char list
+
 val gen_prologue_template : char list
 
 val gen_prologue_entry_format : char list
@@ -664,6 +676,36 @@ type dstate = { d_line : n; d_col : z; d_src : z; d_sl : z; d_sc : z;
 val decode_mappings_from : nat -> char list -> dstate -> raw_token list option
 
 val decode_mappings : char list -> raw_token list option
+
+type lit_entry = { le_value : char list; le_span : sp;
+                   le_ident : char list option }
+
+val str_value : node -> char list option
+
+val entry_of : node -> char list option -> lit_entry list
+
+val first_arg_is_plain_literal : node list -> bool
+
+val callee_named : node -> char list -> bool
+
+val skipped : node -> bool
+
+val binding_name : node -> char list option
+
+val here : node -> lit_entry list
+
+val not_an_expression : tag -> nat -> node -> bool
+
+val walk : node -> lit_entry list
+
+val sp_eqb : sp -> sp -> bool
+
+val same_entry : lit_entry -> lit_entry -> bool
+
+val dedup :
+  lit_entry list -> lit_entry list -> lit_entry list -> lit_entry list
+
+val collect : bool -> node -> lit_entry list option
 
 module NilEmpty :
  sig
@@ -1111,7 +1153,7 @@ val hook_keys_aux : node list -> node -> sp list
 
 val hook_keys : node -> sp list
 
-val sp_eqb : sp -> sp -> bool
+val sp_eqb0 : sp -> sp -> bool
 
 val missing_sites : site_cfg -> node -> node -> site list
 
